@@ -332,6 +332,8 @@ func execOp(f []string) string {
 		return execAgg(f)
 	case "close2":
 		return execClose2(f)
+	case "once":
+		return execOnce(f)
 	case "indep":
 		return execIndep()
 	case "hfile":
